@@ -37,7 +37,7 @@ def jobs(tier, seed):
     for n in range(1, maxn + 1):
         seqs += list(itertools.product(QK, repeat=n))
     # chunks of sequences per job
-    per = 40 if tier == 'quick' else 120
+    per = 10 if tier == 'quick' else 40
     for i in range(0, len(seqs), per):
         out.append(('file', i, per, maxn))
     two = list(itertools.product(QS, repeat=2))
@@ -79,6 +79,8 @@ def check_run(eng, run, data, items, res, mkcase):
 
 def run_seq(seq, mode, res, via='file', maxcuts=0, bufsize=4096, faults=0):
     eng = sym.Engine(max_paths=60 if via == 'file' else 3000, conc_limit=64, conc_small=0)
+    eng.time_budget = 15 if via == 'file' else 120
+    eng.query_timeout_ms = 8000
     H = {}
 
     def fn():
